@@ -222,3 +222,31 @@ Example C04_accepted_quadratic_instance :
   check_C04 (CDiff [4]%nat 1 0 1 1 false false [0;1;4;9]%Q [true;false;true;true] [0;2;4;6]%Q) = true.
 Proof. exact accepted_quadratic_instance. Qed.
 Print Assumptions C04_accepted_quadratic_instance.
+(* the same for second derivatives: a recorded line sampling a cubic (length >= 4) *)
+Theorem C04_accepted_cubic_exact : forall sh nvdim ax h vals valid obs i c0 c1 c2 c3 x0,
+  check_C04 (CDiff sh nvdim ax 2 h false false vals valid obs) = true ->
+  inb (sh ++ [nvdim]) i = true -> (ax < length sh)%nat -> (4 <= nth ax sh 0)%nat ->
+  qc h <> 0%Qc ->
+  (forall j, (j < nth ax sh 0)%nat ->
+     nth j (line (sh ++ [nvdim]) (of_list (f0 QcOps) (sh ++ [nvdim]) (qcl vals)) ax i) 0%Qc
+     = cubic QcOps c0 c1 c2 c3 (x0 + fnat QcOps j * qc h)%Qc) ->
+  nth (ravel (sh ++ [nvdim]) i) (qcl obs) 0%Qc
+  = (f2 QcOps * c2 + ((f2 QcOps + f2 QcOps + f2 QcOps) * c3) * (x0 + fnat QcOps (nth ax i 0%nat) * qc h))%Qc.
+Proof. exact accepted_cubic_exact. Qed.
+Print Assumptions C04_accepted_cubic_exact.
+Example C04_accepted_cubic_instance :
+  check_C04 (CDiff [5]%nat 1 0 2 1 false false [0;1;8;27;64]%Q [true;true;true;true;true] [0;6;12;18;24]%Q) = true.
+Proof. exact accepted_cubic_instance. Qed.
+Print Assumptions C04_accepted_cubic_instance.
+(* invalid cells yield zero, on the observation: open direction, restriction on, recorded flag False *)
+Theorem C04_accepted_invalid_zero : forall sh nvdim ax order h vals valid obs i,
+  check_C04 (CDiff sh nvdim ax order h false true vals valid obs) = true ->
+  inb (sh ++ [nvdim]) i = true -> (ax < length sh)%nat ->
+  nth (nth ax i 0%nat) (line sh (of_list true sh valid) ax (removelast i)) true = false ->
+  nth (ravel (sh ++ [nvdim]) i) (qcl obs) 0%Qc = 0%Qc.
+Proof. exact accepted_invalid_zero. Qed.
+Print Assumptions C04_accepted_invalid_zero.
+Example C04_accepted_invalid_zero_instance :
+  check_C04 (CDiff [4]%nat 1 0 1 1 false true [0;1;4;9]%Q [true;false;true;true] [0;0;5;5]%Q) = true.
+Proof. exact accepted_invalid_zero_instance. Qed.
+Print Assumptions C04_accepted_invalid_zero_instance.
